@@ -240,6 +240,7 @@ pub fn run_c07(a: &Args) {
         st.notes.push(format!("websocket keep-alive burst ({} mode): {sent} sent, {handed} handed over, {replies} replies seen by the peer", mode_tag(compressed)));
       } }
     { let c1 = crate::conv::sync_conversations("C07", a, &mut rng, "ka", &mut st, &mut out); let c2 = crate::conv::async_conversations("C07", a, &mut rng, &mut st, &mut out); st.distinct_nontrivial += (c1.distinct.len() + c2.distinct.len()) as u64; }
+    crate::c08::keepalive_sessions("C07", a, &mut st);
     crate::net::report_unconsumed("C07", &mut st);
     out.finish(&st);
 }
@@ -433,6 +434,9 @@ pub fn run_c06(a: &Args) {
     }
     st.rule = "Framed::write on the real blocking and tokio connections over a scripted transport that accepts k bytes per call / reports not-ready (Interrupted for blocking, Pending for tokio) / fails: all acceptance patterns for short frames, every kind one byte per call, random sequences of 1..6 packets; non-trivial = a call accepting < 4 bytes occurs".into();
     st.sample("A C 2 | p a0 p a0 a1  -> transport receives 01030000".into());
+    // UDP as the transport: a frame handed to write reaches the socket complete and contiguous, i.e. as ONE datagram, at every frame size
+    { let iort = crate::c08::io_runtime();
+      for compressed in [true, false] { for imp in ["B", "A"] { let (n, w) = crate::c08::all_sizes_written(imp, &iort, compressed); st.evaluations += n as u64; if let Some(w) = w { st.fail(format!("[C06 udp {}] {w}", if imp == "B" { "blocking" } else { "tokio" }), format!("udpsizes {imp} {}", mode_tag(compressed))); } st.add("udp writes of every frame size", n as u64); } } }
     // UDP as the transport: writes around a bounced datagram (a write must not report success for a datagram the kernel refused)
     { let iort = crate::c08::io_runtime();
       for compressed in [true, false] { for imp in ["B", "A"] { st.evaluations += 1; if let Some(w) = crate::c08::bounce_case(imp, &iort, compressed) { st.fail(format!("[C06 udp {}] {w}", if imp == "B" { "blocking" } else { "tokio" }), format!("bounce {imp} {}", mode_tag(compressed))); } st.bump("udp writes around a bounced datagram"); } } }
